@@ -600,7 +600,14 @@ func checkProgram(in replayInput) {
 	}
 	removed := nBefore - len(ded.BC.Constants)
 	res.Count("dedup", line, removed > 0)
-	correspond(in, "dedup", line, before.consts, ded.BC, ids, "")
+	if nBefore <= maxModelConsts {
+		correspond(in, "dedup", line, before.consts, ded.BC, ids, "")
+	} else {
+		res.Dist("model-line-skipped-large-pool")
+	}
+	if nBefore >= 256 {
+		res.Dist("programs-with-256+-constants")
+	}
 	okRefs := checkRefs(in, before, ded.BC, true, "refs")
 	res.Count("refs", line, removed > 0)
 	checkNoDups(in, ded.BC, ids, "dups")
@@ -792,11 +799,34 @@ func genProfile(r *lib.RNG) lib.Profile {
 
 // ---- hand-assembled pools ----
 
-func poolCase(r *lib.RNG) {
+// maxModelConsts: pools above this size are checked on the real code only (the list-based model is quadratic).
+const maxModelConsts = 3000
+
+// poolCase builds one pool: bigN == 0 a small random one; otherwise bigN constants, mostly distinct ints with
+// some repeats, so that old and new indexes cross the one-byte boundaries (255/256/257, 511/512/513, 65535).
+func poolCase(r *lib.RNG, bigN int) {
 	nan2 := math.Float64frombits(0x7ff8000000000123)
 	sharedFns := []*tengo.CompiledFunction{{NumLocals: 1}, {NumParameters: 2, NumLocals: 2}, {}}
 	n := 1 + r.Intn(12)
+	if bigN > 0 {
+		n = bigN
+	}
+	uniq := int64(1000)
+	repeatEvery := 2 + r.Intn(40)
 	mkConst := func() tengo.Object {
+		if bigN > 0 {
+			switch k := r.Intn(repeatEvery * 4); {
+			case k == 0:
+				return &tengo.Int{Value: 1000 + int64(r.Intn(int(uniq-999)))} // repeat of an earlier value (or a new one)
+			case k == 1:
+				return &tengo.CompiledFunction{NumLocals: r.Intn(3)}
+			case k == 2:
+				return &tengo.String{Value: fmt.Sprint("s", uniq%97)}
+			case k > 3:
+				uniq++
+				return &tengo.Int{Value: uniq}
+			}
+		}
 		switch r.Intn(8) {
 		case 0:
 			return &tengo.Int{Value: lib.Pick(r, []int64{0, 1, -1, 97, 1 << 40})}
@@ -827,15 +857,27 @@ func poolCase(r *lib.RNG) {
 	for i := range consts {
 		consts[i] = mkConst()
 	}
+	pickIdx := func() int {
+		if bigN > 0 && r.Chance(2, 3) {
+			c := lib.Pick(r, []int{n - 1, n - 2, n / 2, 254, 255, 256, 257, 258, 511, 512, 513, 767, 768, 4095, 4096, 65534, 65535})
+			if c >= 0 && c < n {
+				return c
+			}
+		}
+		return r.Intn(n)
+	}
 	code := func() []byte {
 		var b []byte
 		k := r.Intn(8)
+		if bigN > 0 {
+			k = 4 + r.Intn(24)
+		}
 		for i := 0; i < k; i++ {
 			switch r.Intn(6) {
 			case 0, 1:
-				b = append(b, tengo.MakeInstruction(parser.OpConstant, r.Intn(n))...)
+				b = append(b, tengo.MakeInstruction(parser.OpConstant, pickIdx())...)
 			case 2:
-				b = append(b, tengo.MakeInstruction(parser.OpClosure, r.Intn(n), r.Intn(3))...)
+				b = append(b, tengo.MakeInstruction(parser.OpClosure, pickIdx(), r.Intn(3))...)
 			case 3:
 				b = append(b, tengo.MakeInstruction(parser.OpSetGlobal, r.Intn(300))...)
 			case 4:
@@ -861,12 +903,15 @@ func poolCase(r *lib.RNG) {
 	bc := &tengo.Bytecode{FileSet: parser.NewFileSet(), MainFunction: &tengo.CompiledFunction{Instructions: code()}, Constants: consts}
 	ids := ptrIDs{}
 	line := bcSexp(bc, ids)
-	in := replayInput{Pool: line}
+	in := replayInput{Pool: clip(line, 6000)}
 	before := snap(bc)
 	g := lib.Guard(10e9, func() { bc.RemoveDuplicates() })
 	if g.TimedOut {
 		res.Skipped++
 		return
+	}
+	if bigN > 0 {
+		res.Dist("big-pool")
 	}
 	res.Count("pool", line, len(bc.Constants) < n)
 	if g.Panicked {
@@ -874,9 +919,21 @@ func poolCase(r *lib.RNG) {
 			Expected: "no panic: every operand is a valid index", Oracle: "RemoveDuplicates"})
 		return
 	}
-	correspond(in, "pool", line, before.consts, bc, ids, "")
+	if n <= maxModelConsts {
+		correspond(in, "pool", line, before.consts, bc, ids, "")
+	} else {
+		res.Dist("model-line-skipped-large-pool")
+	}
 	checkRefs(in, before, bc, false, "pool")
 	checkNoDups(in, bc, ids, "pool")
+}
+
+// r0: 0 for the first repetition (exact sizes), a small random offset afterwards.
+func r0(r *lib.RNG, rep int) int {
+	if rep == 0 {
+		return 0
+	}
+	return r.Intn(40)
 }
 
 func fatal(err error) {
@@ -911,6 +968,9 @@ func main() {
 	for _, in := range corpus() {
 		checkProgram(in)
 	}
+	for _, in := range bigCorpus() {
+		checkProgram(in)
+	}
 	rng := lib.NewRNG(f.Seed)
 	n := f.Scale(1500, 15000)
 	for i := 0; i < n; i++ {
@@ -930,7 +990,16 @@ func main() {
 	}
 	n = f.Scale(6000, 60000)
 	for i := 0; i < n; i++ {
-		poolCase(rng.Fork())
+		poolCase(rng.Fork(), 0)
+	}
+	// boundary pools: indexes around the byte boundaries of the two-byte operand
+	for rep := 0; rep < f.Scale(3, 30); rep++ {
+		for _, size := range []int{255, 256, 257, 258, 300, 513, 600, 770, 1030} {
+			poolCase(rng.Fork(), size+r0(rng, rep))
+		}
+	}
+	for _, size := range []int{4100, 65535, 65536} {
+		poolCase(rng.Fork(), size)
 	}
 	res.Write(f.Out)
 }
@@ -964,6 +1033,49 @@ func replay(path string) {
 			checkProgram(d.Input)
 		}
 	}
+}
+
+// bigSource: n constant-bearing assignments (distinct ints and strings, every `dupEvery`-th a repeat of an earlier
+// literal), then closures, so that the function constants CLOSURE names and the constants CONST names sit at
+// indexes around and above 256 before and/or after de-duplication.
+func bigSource(n, dupEvery int) string {
+	var sb strings.Builder
+	sb.WriteString("x := 0\ns := \"\"\n")
+	for i := 0; i < n; i++ {
+		v := i
+		if dupEvery > 0 && i%dupEvery == dupEvery-1 {
+			v = i / 2
+		}
+		if i%5 == 4 {
+			fmt.Fprintf(&sb, "s = \"k%d\"\n", v)
+		} else {
+			fmt.Fprintf(&sb, "x = %d\n", 1000+v)
+		}
+	}
+	sb.WriteString("mk := func(a) { return func(b) { return a + b + x + 1000 } }\nout := mk(5)(6)\n")
+	sb.WriteString("mk2 := func(a) { return func(b) { return func(c) { return [a, b, c, s, \"k0\", 77001, 77002] } } }\nout2 := mk2(1)(2)(3)\n")
+	sb.WriteString("out3 := [77001, 77003, mk(1)(1), mk2(7)(7)(7)]\n")
+	return sb.String()
+}
+
+func bigCorpus() []replayInput {
+	var out []replayInput
+	for n := 244; n <= 262; n++ {
+		out = append(out, replayInput{Source: bigSource(n, 0)}, replayInput{Source: bigSource(n+9, 30)})
+	}
+	for _, n := range []int{300, 505, 510, 515, 700, 1100} {
+		out = append(out, replayInput{Source: bigSource(n, 0)}, replayInput{Source: bigSource(n, 7)})
+	}
+	// as many constants as the two-byte operand can name: adjust n so that the pool has exactly 65536 / 65535 entries
+	for _, target := range []int{65536, 65535} {
+		n := 65000
+		if c, err := compile(replayInput{Source: bigSource(n, 0)}); err == nil {
+			n += target - len(c.BC.Constants)
+			out = append(out, replayInput{Source: bigSource(n, 0)})
+		}
+	}
+	out = append(out, replayInput{Source: bigSource(65300, 9)})
+	return out
 }
 
 // hand-written boundary programs; run first
